@@ -632,6 +632,12 @@ def fieldOf (body : String) (key : String) : String :=
 def spanOK (c : Case) (sp : Span) : Bool :=
   Spec.isCanon c.m c.text sp.s && Spec.isCanon c.m c.text sp.e && sp.s.byte ≤ sp.e.byte
 
+/-- a filter-scoping or sub-lexing node ANYWHERE in the grammar (also below recovering,
+stabilising, bracket, list or context nodes, which `Spec.changesFilter` does not descend into) -/
+def anyFilterChange (g : G) : Bool :=
+  let r := reprStr g
+  (r.splitOn "filterWith").length > 1 || (r.splitOn "unfiltered").length > 1 || (r.splitOn "G.sub").length > 1
+
 /-- checks on one rendered error `E[..]kind{..}` -/
 def errorProblems (c : Case) (e : String) : List String :=
   let raw := (rawOf c).1
@@ -650,7 +656,7 @@ def errorProblems (c : Case) (e : String) : List String :=
         let found := fieldOf body "found"
         if found == "eot" then
           -- end of text only when no token remains: nothing the initial filter keeps starts at or after ts.e
-          (if Spec.changesFilter c.g then [] else
+          (if anyFilterChange c.g then [] else
             if raw.any (fun r => r.start.byte ≥ ts.e.byte && Spec.keeps c.filter r.tok) then
               [s!"{e} reports end of text although a token remains"] else [])
         else
@@ -718,6 +724,17 @@ def run (fam : String) (fields : List String) : String × String :=
     -- behaviour inside the same class of inputs is reported as a violation of its own
     let verdict := if impl == mo then verdict else
       (verdict.replace "F07r-flag-left-set-by-failed-recovery " "").replace "F21-bad-last-segment-without-abort-token " ""
+    -- a run that does not terminate in the model either is C02's matter (finding F07r-hang), not a
+    -- statement about where recovery resumes
+    let verdict := if impl == "timeout" && mo == "timeout" && verdict == "FAIL C12: timeout" then "ok" else verdict
+    -- finding F07r seen as non-termination: an unbounded repetition whose body is a recover-AFTER
+    -- parser with a stabilising parser (or list) inside can succeed in place once a scan has run off
+    -- the end with the closure's flag set; attributed only when the model of the pinned code does
+    -- not terminate either
+    let f07rHang := impl == "timeout" && mo == "timeout" &&
+      (let r := reprStr c.g
+       (r.splitOn "Rec.after").length > 1 && ((r.splitOn "G.stabilize").length > 1 || (r.splitOn "G.list").length > 1) &&
+       ((r.splitOn "G.repeat_").length > 1 || (r.splitOn "G.intersperse").length > 1))
     -- cross-cutting clauses, evaluated on every grammar-level case
     -- C03: every span captured in a value is canonical
     let spanVals := ((firstResult impl).splitOn "sp(").drop 1 |>.filterMap fun ch => parseDotSpan ((ch.splitOn ",").headD "")
@@ -751,6 +768,9 @@ def run (fam : String) (fields : List String) : String × String :=
       (if fam == "errors" || fam == "twice" then [] else [errV])
     let fails := ([verdict] ++ extra).filterMap fun v =>
       if v.startsWith "FAIL " then some (v.drop 5).toString else none
+    let fails := if f07rHang then fails.map fun f =>
+        if f == "C02: the parse did not terminate" then "C02: F07r-repetition-succeeds-in-place the parse did not terminate" else f
+      else fails
     let verdict := if !fails.isEmpty then "FAIL " ++ "; ".intercalate fails else verdict
     (mo, verdict)
 
